@@ -257,21 +257,22 @@ def _w_solve(case, ctx, rng):
     f0 = calls[0][0]
     epoch_vals = [c[0] for c in calls[1:]]
     trace = np.asarray(info["f_est_trace"], dtype=float).reshape(-1)
-    nfail = sum(1 for a, b in zip([f0] + _running_best(f0, epoch_vals)[:-1], epoch_vals) if b > a)
+    nfail = sum(1 for a, b in zip([f0] + _running_best(f0, epoch_vals)[:-1], epoch_vals) if not b <= a)
     ctx.tag("failed-epochs>0" if nfail else "no-failed-epoch")
-    ctx.feat(last_epoch_best=bool(epoch_vals and epoch_vals[-1] <= min([f0] + epoch_vals[:-1])), nfail=min(nfail, 2))
+    ctx.feat(last_epoch_best=bool(epoch_vals and epoch_vals[-1] <= np.nanmin([f0] + epoch_vals[:-1])), nfail=min(nfail, 2),
+             nan_epoch=bool(np.isnan(epoch_vals).any()))
     want_trace = np.array([f0] + epoch_vals)
-    ctx.check(len(trace) == len(want_trace) and bool(np.array_equal(trace, want_trace)), op, "WRONG-TRACE",
+    ctx.check(len(trace) == len(want_trace) and bool(np.array_equal(trace, want_trace, equal_nan=True)), op, "WRONG-TRACE",
               lambda: f"reported trace {trace.tolist()} vs start value + one value per completed epoch {want_trace.tolist()}")
     fs, fv, fw = tap.sample
     fM = float(real_estimate(M, fs, fv, fw, fh, None, False, None))
-    best = min([f0] + epoch_vals)
+    best = float(np.nanmin([f0] + epoch_vals))
     ctx.check(abs(fM - best) <= 1e-12 * max(1.0, abs(best)), op, "NOT-BEST-MODEL",
               lambda: f"estimate of the returned model on the fixed sample {fM!r} vs smallest epoch-boundary value {best!r} (sequence {[f0] + epoch_vals})")
     ctx.check(fM <= f0 + 1e-12 * max(1.0, abs(f0)), op, "WORSE-THAN-START", f"returned model estimate {fM!r} worse than the start {f0!r}")
     if len(trace):
-        ctx.check(abs(fM - float(np.min(trace))) <= 1e-12 * max(1.0, abs(fM)) or len(trace) != len(want_trace), op, "NOT-MIN-OF-TRACE",
-                  f"returned model estimate {fM!r} vs min of the reported trace {float(np.min(trace))!r}")
+        ctx.check(abs(fM - float(np.nanmin(trace))) <= 1e-12 * max(1.0, abs(fM)) or len(trace) != len(want_trace), op, "NOT-MIN-OF-TRACE",
+                  f"returned model estimate {fM!r} vs min of the reported trace {float(np.nanmin(trace))!r}")
     ctx.check(all(bool((f >= lb).all()) for f in M.factor_matrices), op, "BOUND", f"factor entry below the lower bound {lb}")
     ctx.check(info["n_epoch"] + 1 == len(epoch_vals) or len(epoch_vals) == 0, op, "WRONG-TRACE", f"n_epoch {info['n_epoch']} vs {len(epoch_vals)} completed epochs", what="n_epoch")
 
